@@ -265,6 +265,30 @@ func c13Extra(c *core.C, base *sbom.Node) bool {
 			return false
 		}
 	}
+	// texts that a formatting routine would read as directives: the two values differ only in the flag, width or
+	// precision characters after a per-cent sign (or in what follows a backslash), at a string attribute of any depth
+	fmtPairs := [][2]string{{"team%20b", "team%2b"}, {"50%off", "50% off"}, {"jo%+d@x", "jo%d@x"}, {"a%.3s", "a%.5s"}, {"x%-4vy", "x%4vy"}, {"p%[1]d", "p%[2]d"}, {"q\\n", "q\\t"}, {"100%", "100%%"}}
+	for tries := 0; tries < 6; tries++ {
+		mu := c13NodeMuts[r.Intn(len(c13NodeMuts))]
+		if mu.Action != "set" || mu.FD.Kind() != protoreflect.StringKind || mu.FD.Name() == "id" {
+			continue
+		}
+		a, b := gen.Clone(base), gen.Clone(base)
+		ma, oka := gen.Navigate(a.ProtoReflect(), mu.Path)
+		mb, okb := gen.Navigate(b.ProtoReflect(), mu.Path)
+		if !oka || !okb {
+			continue
+		}
+		pr := fmtPairs[r.Intn(len(fmtPairs))]
+		ma.Set(mu.FD, protoreflect.ValueOfString(pr[0]))
+		mb.Set(mu.FD, protoreflect.ValueOfString(pr[1]))
+		c.Evals(2)
+		c.Cover("texts-that-read-as-formatting-directives")
+		if a.Equal(b) || b.Equal(a) || a.Checksum() == b.Checksum() {
+			c.Violatef("node-mutant-equal:"+mu.FieldPath()+":formatting-directive", map[string]any{"path": mu.String(), "values": pr}, "nodes whose %s is %q and %q compare equal (or hash alike)", mu.String(), pr[0], pr[1])
+			return false
+		}
+	}
 	for i, get := range []func(n *sbom.Node) **timestampT{
 		func(n *sbom.Node) **timestampT { return &n.ReleaseDate }, func(n *sbom.Node) **timestampT { return &n.BuildDate }, func(n *sbom.Node) **timestampT { return &n.ValidUntilDate },
 	} {
